@@ -102,10 +102,21 @@ pub struct PKey {
     pub n: u16,
 }
 
+/// Interned key with a constant hash: every value lands in the same shard, so slots are recycled
+/// often (the interned type keeps values for 2 revisions only).
+#[derive(Clone, Copy, PartialEq, Eq, Debug, serde::Serialize, serde::Deserialize)]
+pub struct PHash(pub u16);
+
+impl std::hash::Hash for PHash {
+    fn hash<H: std::hash::Hasher>(&self, state: &mut H) {
+        0u8.hash(state)
+    }
+}
+
 #[salsa::interned(persist, revisions = 2)]
 pub struct PSym<'db> {
     #[returns(copy)]
-    pub v: u16,
+    pub v: PHash,
 }
 
 #[salsa::tracked(persist)]
@@ -183,8 +194,9 @@ pub fn p_on_ent<'db>(db: &'db dyn Pdb, e: PEnt<'db>) -> u16 {
 /// it stored, so the identity (slot and generation) of restored interned values matters.
 #[salsa::tracked(persist, returns(copy))]
 pub fn p_intern<'db>(db: &'db dyn Pdb, k: PKey, v: u16) -> PSym<'db> {
-    let _ = k;
-    PSym::new(db, v)
+    // read a LOW-durability input: only values interned by LOW queries are ever collected
+    let _ = k.n(db);
+    PSym::new(db, PHash(v))
 }
 
 fn pcall(db: &dyn Pdb, n: usize) -> u16 {
@@ -247,9 +259,9 @@ fn peval<'db>(db: &'db dyn Pdb, e: &Expr, ent: Option<PEnt<'db>>) -> u16 {
         Expr::Intern(_, x) => {
             let v = peval(db, x, ent);
             if v % 2 == 0 {
-                p_intern(db, key_of(db, 0), v).v(db)
+                p_intern(db, key_of(db, 0), v).v(db).0
             } else {
-                PSym::new(db, v).v(db)
+                PSym::new(db, PHash(v)).v(db).0
             }
         }
         _ => 0,
@@ -406,7 +418,12 @@ pub fn persist_case(o: &Opts, case_seed: u64) -> CaseReport {
     cfg.lru_makers = false;
     cfg.entries_reqs = false;
     cfg.max_nodes = 8;
-    cfg.hist_len = (10, 30);
+    cfg.hist_len = (10, 40);
+    // a wider value domain in half of the cases, so that new interned values keep appearing and
+    // stale slots of the (constant-hash, revisions = 2) interned type are recycled
+    if rng.chance(1, 2) {
+        cfg.vmod = 9;
+    }
     let mut prog = gen_prog(&mut rng, &cfg);
     restrict(&mut prog);
     let hist = gen_history(&mut rng, &cfg, &prog);
@@ -595,7 +612,7 @@ pub fn persist_case(o: &Opts, case_seed: u64) -> CaseReport {
     if case_seed % 4 != 0 {
         let db: &dyn Pdb = &r2.db;
         let _ = catch_unwind(AssertUnwindSafe(|| {
-            let _ = p_intern(db, key_of(db, 0), 60001).v(db);
+            let _ = p_intern(db, key_of(db, 0), 60001).v(db).0;
             let first: Option<salsa::Id> = PEnt::ingredient(db)
                 .entries(db.zalsa())
                 .next()
